@@ -5,14 +5,6 @@ import IsobarV.Pat.Ext
 
 namespace IsobarV.Pat
 
-def clsStep (c : Cls) : ClsStep :=
-  match clsStepCore c with
-  | some f => f
-  | Option.none =>
-    match clsStepExt c with
-    | some f => f
-    | Option.none => fun _ kids st => { out := .err .unmodelled, kids := kids, st := st }
-
 /-- The class's own-state reset; every class also rewinds its private generator (`rng.seed(seed)`). -/
 def clsReset (c : Cls) (st : St) : St :=
   let st1 := match clsResetCore c with
@@ -22,13 +14,6 @@ def clsReset (c : Cls) (st : St) : St :=
       | some f => f st
       | Option.none => st
   { st1 with cur := 0 }
-
-/-- `next(p)` with recursion depth bounded by `fuel` (out of fuel = `diverge`). -/
-def stepF : Nat → Pat → StepRes
-  | 0, p => { out := .err .diverge, p := p }
-  | fuel + 1, .node c kids st =>
-    let r := clsStep c (stepF fuel) kids st
-    { out := r.out, p := .node c r.kids r.st }
 
 mutual
 /-- `Pattern.reset()`: reset every pattern-valued attribute, recursively, then the own state. -/
@@ -47,6 +32,26 @@ theorem resetList_eq_map (ks : List Pat) : resetList ks = ks.map reset := by
 theorem reset_node (c : Cls) (kids : List Pat) (st : St) :
     reset (.node c kids st) = .node c (kids.map reset) (clsReset c st) := by
   simp [reset, resetList_eq_map]
+
+/-- Class dispatch of `next()`.  (Placed after `reset` because `PReset.__next__` calls `reset()` on a sub-pattern:
+    the classes of `clsStepExtR` receive the generic `reset`.) -/
+def clsStep (c : Cls) : ClsStep :=
+  match clsStepCore c with
+  | some f => f
+  | Option.none =>
+    match clsStepExt c with
+    | some f => f
+    | Option.none =>
+      match clsStepExtR c with
+      | some f => f reset
+      | Option.none => fun _ kids st => { out := .err .unmodelled, kids := kids, st := st }
+
+/-- `next(p)` with recursion depth bounded by `fuel` (out of fuel = `diverge`). -/
+def stepF : Nat → Pat → StepRes
+  | 0, p => { out := .err .diverge, p := p }
+  | fuel + 1, .node c kids st =>
+    let r := clsStep c (stepF fuel) kids st
+    { out := r.out, p := .node c r.kids r.st }
 
 /-- The first `n` outcomes of repeated `next()`. -/
 def outs (fuel : Nat) : Nat → Pat → List Out
